@@ -307,10 +307,12 @@ Proof.
   unfold replace_step. destruct (oget (fst nr) (ls_orders (fst acc))); [|apply wf_refl]. cbn [fst]. apply wf_with_trade. intros x. apply wf_replace_body.
 Qed.
 
-Theorem exec_replace_settles s names reports n r : In (n, r) (zip (pkg_orders s names) reports) -> settled (exec_replace s names reports) n.
+Lemma sendable_in_pkg s names n : In n (pkg_sendable s names) -> In n (pkg_orders s names).
+Proof. unfold pkg_sendable. rewrite filter_In. tauto. Qed.
+Theorem exec_replace_settles s names reports n r : In (n, r) (zip (pkg_sendable s names) reports) -> settled (exec_replace s names reports) n.
 Proof.
   intros Hin. unfold exec_replace. cbv zeta. eapply settled_kept; [apply wf_add_tx|].
-  assert (Hex : ostat s n <> None) by (eapply in_pkg_exists; eapply zip_in_fst; exact Hin).
+  assert (Hex : ostat s n <> None) by (eapply in_pkg_exists; eapply sendable_in_pkg; eapply zip_in_fst; exact Hin).
   assert (G : forall l acc, In (n, r) l -> ostat (fst acc) n <> None -> settled (fst (fold_left replace_step l acc)) n).
   { induction l as [|x t IH]; intros acc Hl Hx; [destruct Hl|]. cbn [fold_left]. destruct Hl as [->|Hl].
     - assert (Hs : settled (fst (replace_step acc (n, r))) n).
@@ -1580,4 +1582,51 @@ Proof.
   - apply andb_true_iff in H. destruct H as [H1 H2]. destruct (oget name (ls_orders s)); [discriminate|]. split; [reflexivity|lia].
   - rewrite forallb_forall in H. intros x Hx. specialize (H x Hx). lia.
   - apply andb_true_iff in H. destruct H as [H1 H2]. destruct (oget name (ls_orders s)); [discriminate|]. split; [reflexivity|lia].
+Qed.
+
+(* ---------- C12 (4), replace packages after the repair of F-C12-1: an order of the package that had completed before the response is
+   skipped - it stays as it is, and the reports go to the orders their instructions were built for ---------- *)
+Lemma ostat_replace_body_other m o0 r x k : k <> m -> k <> ls_next_name x -> (forall st, ls_next_name (order_status x m st) = ls_next_name x) ->
+  ostat (replace_body m o0 r x) k = ostat x k.
+Proof.
+  intros Hk Hn Hnn. destruct r as [c p]. cbn [replace_body]. cbv zeta.
+  assert (E : (k =? m) = false) by lia.
+  assert (H1 : ostat (match c with CSuccess _ => order_status x m SExecComplete | CFailure _ => order_status x m SExecutable | CTimeout => order_status x m SExecutable end) k = ostat x k)
+    by (destruct c; rewrite ostat_order_status, E; reflexivity).
+  destruct p as [[[bet price] size]|]; [|exact H1]. rewrite ostat_add_replacement.
+  assert (Hnx : ls_next_name (match c with CSuccess _ => order_status x m SExecComplete | CFailure _ => order_status x m SExecutable | CTimeout => order_status x m SExecutable end) = ls_next_name x)
+    by (destruct c; apply Hnn).
+  rewrite Hnx. replace (k =? ls_next_name x) with false by lia. exact H1.
+Qed.
+Lemma next_name_order_status y m st : ls_next_name (order_status y m st) = ls_next_name y.
+Proof.
+  unfold order_status. cbv zeta.
+  repeat match goal with
+         | |- context [match ?z with Some _ => _ | None => _ end] => destruct z
+         | |- context [if ?c then _ else _] => destruct c
+         end; unfold complete_trade; repeat match goal with |- context [match ?z with Some _ => _ | None => _ end] => destruct z end; reflexivity.
+Qed.
+
+Theorem replace_skips_completed s names reports n : INV s -> ostat s n = Some SExecComplete -> ostat (exec_replace s names reports) n = Some SExecComplete.
+Proof.
+  intros Hinv Hn. unfold exec_replace. cbv zeta.
+  assert (Ea : forall x a c, ostat (add_tx x a c) n = ostat x n) by reflexivity. rewrite Ea.
+  assert (Hbound : forall x, INV x -> ostat x n <> None -> n < ls_next_name x).
+  { intros x (_ & _ & _ & Hfn & _) Hx. unfold ostat in Hx. destruct (oget n (ls_orders x)) as [o|] eqn:E; [|cbn in Hx; congruence].
+    destruct (oget_in _ _ _ E) as [Hin Hname]. specialize (Hfn o Hin). lia. }
+  assert (G : forall l acc, INV (fst acc) -> ostat (fst acc) n = Some SExecComplete -> ~ In n (map fst l) -> ostat (fst (fold_left replace_step l acc)) n = Some SExecComplete).
+  { induction l as [|x r IH]; intros acc Hi Ho Hnot; cbn [fold_left]; [exact Ho|]. cbn [map In] in Hnot.
+    assert (Hstep : INV (fst (replace_step acc x)) /\ ostat (fst (replace_step acc x)) n = Some SExecComplete).
+    { unfold replace_step. destruct (oget (fst x) (ls_orders (fst acc))) as [o0|] eqn:Eo; [|split; assumption]. cbn [fst]. split.
+      - apply INV_with_trade; [intros y; apply INV_replace_body|exact Hi].
+      - unfold with_trade. rewrite Eo. rewrite ostat_trade_set.
+        set (y := trade_set (fst acc) (lo_trade o0) TPending).
+        assert (Hy : ostat y n = ostat (fst acc) n) by apply ostat_trade_set.
+        assert (Hny : ls_next_name y = ls_next_name (fst acc)) by (destruct (nn_trade_set (fst acc) (lo_trade o0) TPending) as [A _]; exact A).
+        rewrite ostat_replace_body_other; [rewrite Hy; exact Ho|intro; apply Hnot; left; congruence| |intros; apply next_name_order_status].
+        rewrite Hny. assert (n < ls_next_name (fst acc)) by (apply Hbound; [exact Hi|rewrite Ho; discriminate]). lia. }
+    destruct Hstep as [H1 H2]. apply IH; [exact H1|exact H2|tauto]. }
+  apply G; [exact Hinv|exact Hn|].
+  intro Hin. apply zip_fst_incl in Hin. unfold pkg_sendable in Hin. apply filter_In in Hin. destruct Hin as [_ Hin].
+  unfold ostat in Hn. destruct (oget n (ls_orders s)) as [o|]; [|discriminate]. cbn in Hn. inversion Hn as [E]. rewrite E in Hin. discriminate.
 Qed.
